@@ -461,10 +461,17 @@ def _color_refine(
     counter = (
         itertools.count(1, 1) if max_iter is None else range(max_iter + 1)
     )
-    for _ in counter:
+    # bond stereo enters the colors with a delay of one round
+    # (it is hashed from the colors of the previous round)
+    min_iter = 2 if (getattr(graph, "bond_stereo", None)
+                     or getattr(graph, "bond_stereo_changes", None)) else 1
+
+    for i in counter:
         atom_hash = next(sm_generator)
         new_n_classes = np.unique(atom_hash).shape[0]
-        if new_n_classes == n_atom_classes:
+        if i < min_iter:
+            n_atom_classes = new_n_classes
+        elif new_n_classes == n_atom_classes:
             break
         elif new_n_classes == n_atoms:
             break
